@@ -23,6 +23,9 @@
     Exchange format (run_C15), also documented in harness/c15.go:
       case  = (0 (op ...))                      an operation sequence on a fresh store
             | (1 p s)                           SQLite predicates: -> (like(p||'%', s) instr(s,p)=1)
+            | (2 (op ...))                      as 0, run by the harness on an on-disk repository
+                                                through the real `wrgl remote rename|remove` (ops 17/18)
+            | (3 (op ...))                      as 0 (long-log cases; the harness always runs the file store too)
       op    = (0 k v) Set | (1 k v meta) SetWithLog | (2 k) Get | (3 k) Delete
             | (4 (p ...) (n ...)) Filter | (5 (p ...) (n ...)) FilterKey
             | (6 a b) Rename | (7 a b) Copy | (8 k) LogReader+Read*
@@ -31,6 +34,7 @@
             | (12 kind arg) ListHeads(0) ListTags(1) ListRemoteRefs(2 arg) ListTransactionRefs(3 arg)
             | (13 a b) RenameRef | (14 a b) CopyRef | (15 k v meta) SaveRef
             | (16 (p ...) (n ...)) ListLocalRefs
+            | (17 r r') `wrgl remote rename r r'` (r <> r') | (18 r) `wrgl remote remove r`
       meta  = (author email action message txid?)      txid? = () | (bytes)
       obs   = (res ...) one per op
       res   = (0) ok | (1) error | (2) panic | (3 v) | (4 ((k v) ...)) sorted by k
@@ -257,7 +261,12 @@ Definition d_op (t : tree) : op :=
   | 13%nat => ORenameRef a b
   | 14%nat => OCopyRef a b
   | 15%nat => OSaveRef a b (d_meta (d_nth 3 t))
-  | _ => OListLocal (d_blist (d_nth 1 t)) (d_blist (d_nth 2 t))
+  | 16%nat => OListLocal (d_blist (d_nth 1 t)) (d_blist (d_nth 2 t))
+  (* cmd/wrgl/remote: `remote rename a b` (generated with a <> b only: the command returns early
+     for a = b) is RenameAllRemoteRefs + a config update, `remote remove a` is DeleteAllRemoteRefs
+     + a config update; the harness keeps the configuration in step *)
+  | 17%nat => ORenRemote a b
+  | _ => ODelRemote a
   end.
 
 Definition t_meta_fields (m : meta) : list tree :=
@@ -282,11 +291,11 @@ Definition t_res (r : res) : tree :=
 
 Definition run_C15_kind (fk : filter_kind) (c : tree) : tree :=
   match d_nat (d_nth 0 c) with
-  | 0%nat => t_list t_res (crun fk cinit (d_list d_op (d_nth 1 c)))
-  | _ =>
+  | 1%nat =>
       let p := d_bytes (d_nth 1 c) in
       let s := d_bytes (d_nth 2 c) in
       Node [t_bool (like_prefix p s); t_bool (instr_prefix p s)]
+  | _ => t_list t_res (crun fk cinit (d_list d_op (d_nth 1 c)))
   end.
 
 (* the correspondence runs the model of the CURRENT code *)
